@@ -76,7 +76,7 @@ fn exhaustive(dir: &Path, wmax: u16) -> Vec<Scenario> {
                     continue;
                 }
                 // a long message: cut by the worker's own receive buffer (blksize + 4 / 516 bytes)
-                for n in [9u16, 600] {
+                for n in [9u16, 6, 600] {
                     let mut s = prefix.clone();
                     s.push(Sev::ErrorLong(code, n));
                     out.push(mk(&cfg, s, After::Honest));
